@@ -6,14 +6,12 @@ Only theorems + non-vacuity examples here; lemmas live in Lemmas/Ts*.lean.
 Text is `Str = List Char`.  A series is the list of tokens pandas printed for it (number formatting is
 data); `tokVal t` is the number the token denotes (`float(t)`), labels come back as `lower (strip l)`.
 
-FULL STATEMENT (property text): for every panel, every label list *or no labels*, every writer option,
-`parseTs (write o panel vals)` returns the panel.  It does NOT hold for the code as it stands:
-(1) without class labels the writer emits `@class_label false`, a line the parser does not recognise as
-the class-label tag, so the file is rejected (`roundtrip_without_labels_is_rejected`, for every panel);
-(2) a class value containing `?` is rewritten by the parser's missing-value substitution
-(`label_with_question_mark_is_rewritten`).  Proved instead: the labelled round trip for labels without
-`?` (`parse_write_roundtrip_partial`), and the label-free round trip for the writer with the one header
-line corrected (`parse_writeFixed_roundtrip_nolabels`).
+FULL STATEMENT (property text): for every panel, every label list or no labels, every writer option,
+`parseTs (write o panel vals)` returns the panel: `parse_write_roundtrip` (labelled and label-free; the
+label-free half holds since fix 8439410 made the writer emit `@classLabel false`).
+One exclusion remains: a class value containing `?` is rewritten by the parser's missing-value
+substitution (`label_with_question_mark_is_rewritten`, open finding), so class values are taken free of
+`?` (hypothesis `ValidLabel.noQ`); `:` and newline are excluded because the format delimits with them.
 -/
 import SkVerif.Lemmas.TsRoundTrip
 import SkVerif.Lemmas.TsReject
@@ -23,12 +21,12 @@ open SkVerif.TsFile SkVerif.TsFile.Lem SkVerif.TsFile.Spec
 
 /-! ### round trip -/
 
-/-- **parse ∘ write = id (labelled panels).**  For every univariate panel of printed number tokens, every
+/-- **parse ∘ write = id, labelled panels.**  For every univariate panel of printed number tokens, every
 list of class values (one per instance, free of `:`, `?`, newline), every writer option (problem name,
 comment block, `@equalLength`, `@seriesLength`, class label set): loading the written file returns one
 dimension holding the instances in order, each series with its values in order (the numbers the printed
 tokens denote), and the class values lower-cased and stripped. -/
-theorem parse_write_roundtrip_partial (o : WOpts) (panel : List (List Str)) (vals : List Str)
+theorem parse_write_roundtrip_labelled (o : WOpts) (panel : List (List Str)) (vals : List Str)
     (ho : ValidOpts o) (hcl : o.classLabel ≠ []) (hJ : strip (join [' '] o.classLabel) ≠ [])
     (hne : panel ≠ []) (hlen : vals.length = panel.length)
     (hp : ∀ s ∈ panel, ValidSeries s) (hl : ∀ l ∈ vals, ValidLabel l) :
@@ -55,69 +53,51 @@ theorem parse_write_roundtrip_partial (o : WOpts) (panel : List (List Str)) (val
   rw [parseTs_unlines_ok _ st' hnl hrun']
   simpa using finish_loaded _ st' true _ _ (written_length_ne_zero _ _ _) hL
 
-/-- **The known defect, for every panel.**  Written without class labels (`class_label=None`), a
-non-empty panel is never loaded back: the parser answers `TsFileParseException`. -/
-theorem roundtrip_without_labels_is_rejected (o : WOpts) (panel : List (List Str))
+/-- **parse ∘ write = id, label-free panels** (`class_label=None`): the frame alone comes back. -/
+theorem parse_write_roundtrip_nolabels (o : WOpts) (panel : List (List Str))
     (ho : ValidOpts o) (hcl : o.classLabel = []) (hne : panel ≠ []) (hp : ∀ s ∈ panel, ValidSeries s) :
-    (write o panel []).bind parseTs = .error .parse := by
+    (write o panel []).bind parseTs = .ok ⟨[panel.map (·.map tokVal)], none⟩ := by
   have hw : write o panel [] = .ok (unlines (headerLines noLabelLine o ++ caseLines o.univariate panel [])) := by
     simp only [write, writeWith, ho.eqsl, if_false]
     simp
   rw [hw, ho.uni]
   simp only [Except.bind]
   have hstep : step s3 (normLine (clLine noLabelLine o))
-      = .ok { s3 with classLabels := false, hasCL := false } := by
+      = .ok { s3 with classLabels := false, hasCL := true } := by
     simp only [clLine, hcl, ne_eq, not_true_eq_false, if_false]
-    exact step_skip s3 _ skip_noLabelLine rfl
-  have hH := run_header noLabelLine o ho false false hstep
+    exact step_written_classLabel_false s3 rfl
+  have hH := run_header noLabelLine o ho true false hstep
+  obtain ⟨st', hrun, hL⟩ := run_all_cases_one panel (hdrSt true false) hne hp (fresh_hdrSt false)
   have hnl : ∀ l ∈ headerLines noLabelLine o ++ caseLines true panel [], '\n' ∉ l := by
     intro l hm
     rcases List.mem_append.mp hm with h | h
     · exact header_no_nl noLabelLine o ho (by decide) l h
     · exact caseLines_two_no_nl panel [] hp (by simp) l h
-  apply parseTs_unlines_error _ _ hnl
-  rw [List.map_append, run_append_ok _ hH]
-  match panel, hne with
-  | r :: rs, _ =>
-    rw [caseLines_true_cons_nil, List.map_cons]
-    apply run_cons_error
-    have := written_line_is_data (hdrSt false false) r [] (hp r (by simp)).1 (hp r (by simp)).2 rfl
-    rw [List.append_nil] at this
-    rw [this]
-    exact dataLine_noCL _ _ rfl
-
-/-- the same at a concrete witness (one instance, the tokens pandas prints for `[1.5, -2.25]`) -/
-theorem roundtrip_without_labels_witness :
-    (write { problemName := "p".toList } [[" 1.50".toList, "-2.25".toList]] []).bind parseTs
-      = .error .parse := by rfl
-
-/-- **With the one header line corrected** (`@classLabel false`, file findings/C18-*.patch) the
-label-free round trip holds for every panel and option. -/
-theorem parse_writeFixed_roundtrip_nolabels (o : WOpts) (panel : List (List Str))
-    (ho : ValidOpts o) (hcl : o.classLabel = []) (hne : panel ≠ []) (hp : ∀ s ∈ panel, ValidSeries s) :
-    (writeFixed o panel []).bind parseTs = .ok ⟨[panel.map (·.map tokVal)], none⟩ := by
-  have hw : writeFixed o panel [] = .ok (unlines (headerLines noLabelLineFixed o ++ caseLines o.univariate panel [])) := by
-    simp only [writeFixed, writeWith, ho.eqsl, if_false]
-    simp
-  rw [hw, ho.uni]
-  simp only [Except.bind]
-  have hstep : step s3 (normLine (clLine noLabelLineFixed o))
-      = .ok { s3 with classLabels := false, hasCL := true } := by
-    simp only [clLine, hcl, ne_eq, not_true_eq_false, if_false]
-    exact step_written_classLabel_false s3 rfl
-  have hH := run_header noLabelLineFixed o ho true false hstep
-  obtain ⟨st', hrun, hL⟩ := run_all_cases_one panel (hdrSt true false) hne hp (fresh_hdrSt false)
-  have hnl : ∀ l ∈ headerLines noLabelLineFixed o ++ caseLines true panel [], '\n' ∉ l := by
-    intro l hm
-    rcases List.mem_append.mp hm with h | h
-    · exact header_no_nl noLabelLineFixed o ho (by decide) l h
-    · exact caseLines_two_no_nl panel [] hp (by simp) l h
-  have hrun' : run {} ((headerLines noLabelLineFixed o ++ caseLines true panel []).map normLine) = .ok st' := by
+  have hrun' : run {} ((headerLines noLabelLine o ++ caseLines true panel []).map normLine) = .ok st' := by
     rw [List.map_append, run_append_ok _ hH, hrun]
   rw [parseTs_unlines_ok _ st' hnl hrun']
   simpa using finish_loaded _ st' false _ _ (written_length_ne_zero _ _ _) hL
 
-/-- **Second defect, at a witness**: the class value `what?` is loaded as `whatNaN` (the parser applies
+/-- **parse ∘ write = id** (the property's first clause, labelled AND label-free).  For every univariate
+panel of printed number tokens and every writer option, either without class labels (`class_label=None`,
+no class values) or with a class value per instance (free of `:`, `?`, newline): loading the written file
+returns one dimension holding the instances in order, each series with its values in order (the numbers
+the printed tokens denote), and the class values lower-cased and stripped (none when none were written). -/
+theorem parse_write_roundtrip (o : WOpts) (panel : List (List Str)) (vals : List Str)
+    (ho : ValidOpts o) (hne : panel ≠ []) (hp : ∀ s ∈ panel, ValidSeries s) (hl : ∀ l ∈ vals, ValidLabel l)
+    (hcase : (o.classLabel = [] ∧ vals = []) ∨
+      (o.classLabel ≠ [] ∧ strip (join [' '] o.classLabel) ≠ [] ∧ vals.length = panel.length)) :
+    (write o panel vals).bind parseTs
+      = .ok ⟨[panel.map (·.map tokVal)],
+             if o.classLabel = [] then none else some (vals.map (fun l => lower (strip l)))⟩ := by
+  rcases hcase with ⟨h1, h2⟩ | ⟨h1, h2, h3⟩
+  · subst h2
+    rw [if_pos h1]
+    exact parse_write_roundtrip_nolabels o panel ho h1 hne hp
+  · rw [if_neg h1]
+    exact parse_write_roundtrip_labelled o panel vals ho h1 h2 hne h3 hp hl
+
+/-- **Open finding, at a witness**: the class value `what?` is loaded as `whatNaN` (the parser applies
 `replace("?", "NaN")` to the whole case line). -/
 theorem label_with_question_mark_is_rewritten :
     (match (write { problemName := "p".toList, classLabel := ["what?".toList] } [["1".toList]] ["what?".toList]).bind parseTs with
@@ -132,7 +112,7 @@ theorem roundtrip_preserves_instances_and_lengths (o : WOpts) (panel : List (Lis
     ∃ loaded labels, (write o panel vals).bind parseTs = .ok ⟨[loaded], some labels⟩ ∧
       loaded.length = panel.length ∧ loaded.map List.length = panel.map List.length ∧
       labels.length = panel.length := by
-  refine ⟨_, _, parse_write_roundtrip_partial o panel vals ho hcl hJ hne hlen hp hl, ?_, ?_, ?_⟩
+  refine ⟨_, _, parse_write_roundtrip_labelled o panel vals ho hcl hJ hne hlen hp hl, ?_, ?_, ?_⟩
   · simp
   · simp [List.map_map, Function.comp_def]
   · simp [hlen]
@@ -157,7 +137,7 @@ theorem all_formats_parse_to_same_panel (o : WOpts) (header : List Str) (panel :
       parseTsv (renderTsv panel vals) = .ok ⟨[X], some yTsv⟩ ∧
       yArff = yTsv ∧ yTs = yArff.map lower ∧ X.length = panel.length := by
   refine ⟨panel.map (·.map tokVal), vals.map (fun l => lower (strip l)), vals.map strip, vals.map strip,
-    parse_write_roundtrip_partial o panel vals ho hcl hJ hne hlen (fun s hs => (hp s hs).1)
+    parse_write_roundtrip_labelled o panel vals ho hcl hJ hne hlen (fun s hs => (hp s hs).1)
       (fun l h => (hl l h).1), ?_, parseTsv_render panel vals hlen hp (fun l h => (hl l h).2), rfl, ?_, by simp⟩
   · apply parseArff_render header panel vals hne hlen hH
     intro p hpz
@@ -308,21 +288,22 @@ theorem roundtrip_concrete_values :
      | .error _ => false) = true := by
   decide +kernel
 
-/-- the hypotheses of `parse_write_roundtrip_partial` are met by a concrete, non-trivial input … -/
+/-- the hypotheses of `parse_write_roundtrip_labelled` are met by a concrete, non-trivial input … -/
 example : (write exOpts exPanel exVals).bind parseTs
     = .ok ⟨[exPanel.map (·.map tokVal)], some ["a".toList, "b".toList]⟩ :=
-  parse_write_roundtrip_partial exOpts exPanel exVals exOpts_valid (by decide) (by decide) (by decide) rfl
+  parse_write_roundtrip_labelled exOpts exPanel exVals exOpts_valid (by decide) (by decide) (by decide) rfl
     exPanel_valid exVals_valid
 
-/-- … and of the label-free theorems -/
-example : (write { exOpts with classLabel := [] } exPanel []).bind parseTs = .error .parse :=
-  roundtrip_without_labels_is_rejected _ exPanel
-    { exOpts_valid with clNl := by decide } rfl (by decide) exPanel_valid
-
-example : (writeFixed { exOpts with classLabel := [] } exPanel []).bind parseTs
+/-- … and of the label-free half, through the unified theorem -/
+example : (write { exOpts with classLabel := [] } exPanel []).bind parseTs
     = .ok ⟨[exPanel.map (·.map tokVal)], none⟩ :=
-  parse_writeFixed_roundtrip_nolabels _ exPanel
-    { exOpts_valid with clNl := by decide } rfl (by decide) exPanel_valid
+  parse_write_roundtrip _ exPanel [] { exOpts_valid with clNl := by decide } (by decide) exPanel_valid
+    (by simp) (Or.inl ⟨rfl, rfl⟩)
+
+example : (write exOpts exPanel exVals).bind parseTs
+    = .ok ⟨[exPanel.map (·.map tokVal)], some ["a".toList, "b".toList]⟩ :=
+  parse_write_roundtrip exOpts exPanel exVals exOpts_valid (by decide) exPanel_valid exVals_valid
+    (Or.inr ⟨by decide, by decide, rfl⟩)
 
 /-- … and of the three-format theorem (tokens of `exPanel` with the header of a bundled `.arff` file) -/
 example : ∃ X yTs yArff yTsv,
@@ -343,7 +324,7 @@ example : ∃ X yTs yArff yTsv,
       rcases hl with rfl | rfl <;> exact ⟨by decide, by decide, by decide, by decide⟩⟩)
     (by decide) (by decide)
 
-/-- the missing-tag theorem applies to the writer's label-free output -/
+/-- the missing-tag theorem applies to what the writer emitted for label-free data before fix 8439410 -/
 example : ∃ e, parseTs ("@problemName p\n@timeStamps false\n@univariate true\n@class_label false\n@data\n1,2\n".toList)
     = .error e :=
   parser_rejects_missing_classlabel_tag _ (by decide)
